@@ -750,6 +750,8 @@ impl Watchdog {
 #[derive(Clone, Default)]
 pub struct MemStore {
     pub rows: Arc<Mutex<BTreeMap<(VerifyingKey, L), BTreeMap<SeqNum, (Op, Vec<u8>, usize)>>>>,
+    /// what `TopicStore::resolve` answers (any topic)
+    pub scope: Arc<Mutex<BTreeMap<VerifyingKey, Vec<L>>>>,
 }
 
 impl MemStore {
@@ -823,5 +825,19 @@ impl LogStore<Op, VerifyingKey, L, SeqNum, Hash> for MemStore {
             n = (before - m.len()) as u64;
         }
         Ok(n)
+    }
+}
+
+impl TopicStore<Topic, VerifyingKey, L> for MemStore {
+    type Error = MemStoreError;
+    async fn associate(&self, _topic: &Topic, author: &VerifyingKey, data_id: &L) -> Result<bool, Self::Error> {
+        self.scope.lock().unwrap().entry(*author).or_default().push(*data_id);
+        Ok(true)
+    }
+    async fn remove(&self, _topic: &Topic, _author: &VerifyingKey, _data_id: &L) -> Result<bool, Self::Error> {
+        Ok(false)
+    }
+    async fn resolve(&self, _topic: &Topic) -> Result<BTreeMap<VerifyingKey, Vec<L>>, Self::Error> {
+        Ok(self.scope.lock().unwrap().clone())
     }
 }
